@@ -658,6 +658,16 @@ func (C07) AfterCall(w *World, c *Call) {
 						exp = tr
 					}
 					for ai, a := range exp {
+						// an argument that evaluates to an error whatever the context is handed to the test as that error
+						// (so the test fails and the case does not match), never as some text
+						if strings.TrimSpace(a) == "@(1/0)" && ai+1 < len(calls[j].Args) {
+							if _, isErr := calls[j].Args[ai+1].(*types.XError); !isErr {
+								v("case-arguments", "error-argument-not-an-error", fmt.Sprintf("router on node %s case %d (%s): argument %q always evaluates to an error but the test was handed %s", nodeU, j, want, a, types.Describe(calls[j].Args[ai+1])))
+								return
+							}
+							w.probe("c07_error_argument_checked")
+							continue
+						}
 						if strings.Contains(a, "@") || ai+1 >= len(calls[j].ArgText) || ai+1 >= len(calls[j].Args) {
 							continue
 						}
@@ -1088,6 +1098,31 @@ func (C18) AfterCall(w *World, c *Call) {
 				}
 				if l != "" {
 					qrLang = l
+				}
+			}
+		}
+		// nothing of the winning translation is lost: every marked entry of the translated attachments list the
+		// chain picks for this action is among the message's attachments (generated translations of attachments are
+		// short, valid and literal, so evaluation has no reason to drop one)
+		item := ""
+		for _, mm := range markerRe.FindAllStringSubmatch(text+" "+fmt.Sprint(m["attachments"])+" "+fmt.Sprint(m["quick_replies"]), -1) {
+			if mk, ok := w.Sc.Markers[mm[1]]; ok && item == "" {
+				item = mk.Item
+			}
+		}
+		if item != "" {
+			if trLang, tr := def.resolve(ls, item, "attachments"); trLang != "" {
+				emitted := fmt.Sprint(m["attachments"])
+				for _, entry := range tr {
+					for _, mm := range markerRe.FindAllStringSubmatch(entry, -1) {
+						if mk, ok := w.Sc.Markers[mm[1]]; ok && mk.Prop == "attachments" && mk.Lang == trLang && !strings.Contains(entry, "@") && len(entry) < 500 {
+							if !strings.Contains(emitted, mm[0]) {
+								w.Violate("C18", "fallback", "C18.translation-entry-lost/attachments", fmt.Sprintf("message of action %s: the %s translation of its attachments has the entry %q but the message's attachments are %v", item, trLang, entry, m["attachments"]))
+								return
+							}
+							w.probe("c18_translated_attachment_entry_present")
+						}
+					}
 				}
 			}
 		}
